@@ -50,9 +50,6 @@ def exIeee : Sc (Option Int) where
   ofNat n := some n
   narrow a := a
 
-example : IeeeCmp exIeee (fun n => (n : Int)) := by
-  constructor <;> intros <;> (try rename_i a; cases a) <;> rfl
-
 /-- The integers as a discrete order: `nextafter` steps by one. -/
 def exInt : Sc Int where
   lt a b := decide (a < b)
@@ -69,14 +66,6 @@ def exInt : Sc Int where
   ofNat n := n
   narrow a := a
 
-example : SuccNext exInt := by
-  constructor
-  · intros; rfl
-  · intro a b h; simp [exInt, h, Order.succ_eq_add_one]
-  · intro a; simp [exInt]
-
-example : fill_uniform_elem exInt 0 3 0 = 3 ∧ fill_uniform_elem exInt 0 3 2 = 2 := by decide
-
 /-- The rationals with exact arithmetic (`sqrt` is not needed to be a square root for the formulas). -/
 def exRat : Sc Rat where
   lt a b := decide (a < b)
@@ -92,8 +81,6 @@ def exRat : Sc Rat where
   exp a := a
   ofNat n := n
   narrow a := a
-
-example : ExactArith exRat := by constructor <;> intros <;> rfl
 
 /-! ### Parameter validation -/
 
@@ -132,9 +119,6 @@ theorem Rng.guard_iff (h : IeeeCmp S lit) (x y : α) :
   refine ⟨?_, Rng.guard_iff_uniform h x y, Rng.guard_iff_normal h _ y, Rng.guard_iff_log_normal h _ y⟩
   rw [Rng.guard_iff_bernoulli h x, not_and_or, not_le, not_le]
 
-example : guard_random_bernoulli exIeee (some 2) = true ∧ guard_random_bernoulli exIeee (some 1) = false ∧
-    guard_random_uniform exIeee (some 3) (some 3) = false ∧ guard_random_normal exIeee (some 0) (some 0) = true := by
-  decide
 end guards
 
 /-! ### fix-up, masks, stream -/
@@ -308,8 +292,6 @@ theorem Init.identity_matrix {α : Type} (S : Sc α) (n : Nat) (t : Tensor α) (
     ∀ i j, i < n → j < n → t.data[i + n * j]? = some (if i = j then S.ofNat 1 else S.ofNat 0) :=
   deviceIdentity_spec S n t ht
 
-example : (deviceIdentity exInt 2).toOption.map (·.data) = some [1, 0, 0, 1] := by decide
-
 /-! ### The backends and the distribution objects (tables generated from the sources) -/
 
 theorem Rng.backends_forward_params :
@@ -330,5 +312,32 @@ theorem Rng.dist_objects :
 theorem Rng.fill_stores_draw {α : Type} (S : Sc α) (a b d : α) :
     fill_bernoulli_elem S a d = d ∧ fill_normal_elem S a b d = d ∧ fill_log_normal_elem S a b d = d := by
   simp [fill_bernoulli_elem, fill_normal_elem, fill_log_normal_elem]
+
+/-! ### Concrete instances of the hypotheses and of the statements
+
+(at the end of the file, so that an instance that stops evaluating after a change of the
+sources is not attributed to the theorems) -/
+
+example : IeeeCmp exIeee (fun n => (n : Int)) := by
+  constructor <;> intros <;> (try rename_i a; cases a) <;> rfl
+
+example : SuccNext exInt := by
+  constructor
+  · intros; rfl
+  · intro a b h; simp [exInt, h, Order.succ_eq_add_one]
+  · intro a; simp [exInt]
+
+example : fill_uniform_elem exInt 0 3 0 = 3 ∧ fill_uniform_elem exInt 0 3 2 = 2 := by decide
+
+example : ExactArith exRat := by constructor <;> intros <;> rfl
+
+example : guard_random_bernoulli exIeee (some 2) = true ∧ guard_random_bernoulli exIeee (some 1) = false ∧
+    guard_random_uniform exIeee (some 3) (some 3) = false ∧ guard_random_normal exIeee (some 0) (some 0) = true := by
+  decide
+
+example : (deviceIdentity exInt 2).toOption.map (·.data) = some [1, 0, 0, 1] := by decide
+
+/-- the Conv2D fans of a 3×3 kernel with 2 input and 4 output channels: 18 and 36 -/
+example : convFanIn ⟨[3, 3, 2, 4], 1, 72⟩ = 18 ∧ convFanOut ⟨[3, 3, 2, 4], 1, 72⟩ = 36 := by decide
 
 end Primitiv.C17
